@@ -11,6 +11,9 @@ CHECKS = {
  "C03": ("exploration", "exhaustive enumeration of a bounded index box plus Hypothesis-generated nested parents; oracle = Python list indexing",
          "Every index of the bounded box on a Signal parent (complete) and sampled indices on nested slice/concat/port-reference/bundle-reference parents are built, width-queried, connected, elaborated and exported; acceptance, reported width and the exported bit sequence are compared with Python's own list indexing.",
          "Trusts Python list slicing and the package reader; nested parents sampled; acceptance is only required where the statement requires it."),
+ "C10": ("exploration", "exhaustive enumeration of a bounded family of bundle-definition trees plus Hypothesis-generated deeper trees; oracle = reference flattener written from the statement",
+         "For every tree of the enumerated family and sampled deeper/wider trees the exported module's ports (name, width, direction) and internal signals are compared with a reference flattener (names by path, parity of flips for declared ports, role source/sink rule, plain leaves undirected, internal instances -> signals); bundle connections are checked with the C01 isomorphism oracle.",
+         "Trusts the reference flattener's reading of the statement (role directions not flipped); enumerated family complete only within its stated bounds."),
  "C13": ("exploration", "property-based testing (Hypothesis) of parameter export and to_scalar against a reference encoder written from the statement",
          "Generated parameter assignments for all 21 primitives and dict/paramclass/Scalar external modules are exported with to_proto and every exported ParamValue (kind, digits, prefix, text, double bits, omission of None, VLSIR primitive name and pulse renaming) is compared with a reference encoder; to_scalar is checked on every value form.",
          "Trusts Decimal/Fraction and protobuf accessors; ambiguous strings and Decimal-typed external parameters are recorded only; sampling."),
